@@ -115,6 +115,20 @@ def run(ctx):
             else:
                 first[i] = c
                 touched[i] = 0
+            if kind != "dsge" and H.draw(3) == 0:
+                # "determined by the genotype and the grammar alone": a FRESH representation object of the same configuration
+                # (no history of earlier mappings) maps the genotype to the same program
+                rep2 = w.fresh_rep()
+                if rep2 is not None:
+                    from ..world import OpResult
+
+                    r2 = OpResult("map")
+                    p2 = w.guarded(r2, lambda: rep2.genotype_to_phenotype(g))
+                    ctx.stat("fresh_representation_mappings")
+                    if r2.ok and canon(p2, w.ref) != c:
+                        ctx.violate(f"C07/program-depends-on-the-representation-object's-history/{kind}/{'refined' if refined else 'plain'}",
+                                    f"a {kind} genotype maps to {render_value(res.phenotype, w.ref)[:200]} on the representation object that has mapped "
+                                    f"other genotypes before, and to {render_value(p2, w.ref)[:200]} on a fresh one")
         ctx.shape = kind + ":" + "".join(shape)
         ctx.sample["interleaving"] = "".join(shape)
     finally:
